@@ -831,12 +831,38 @@ func (c *Ctx) checkPijAssembly() {
 		})
 	}
 	sort.Strings(writers)
+	// the eigen system is fetched from the model at every recomputation (nothing cached in the Pij object)
+	var eig ssa.Instruction
+	allInstrs(fn, func(in ssa.Instruction) {
+		if cc := callOf(in); cc != nil && cc.IsInvoke() && cc.Method.Name() == "Eigens" {
+			eig = in
+		}
+	})
+	okEig := eig != nil
+	if okEig {
+		for _, s := range sets {
+			if !(eig.Block() == s.call.Block() || eig.Block().Dominates(s.call.Block())) {
+				okEig = false
+			}
+		}
+		// right/left used in the products are the results of that call
+		for _, s := range sets {
+			if bo, ok := s.v.(*ssa.BinOp); ok && bo.Op == token.MUL {
+				if m1, _, _, isAt := isDenseAt(bo.X); isAt {
+					if ex, ok := m1.(*ssa.Extract); !ok || ex.Tuple != eig.(ssa.Value) {
+						okEig = false
+					}
+				}
+			}
+		}
+	}
+	L.Check(okEig, "pij-assembly", r.label, "eigen system fetched at every recomputation", c.P.Pos(fn.Pos()), "model.Eigens() dominates every matrix write of SetLength and its results are the factors used", "SetLength does not fetch the eigen system from the model each time it recomputes (a cached copy survives a later InitModel with other parameters)")
 	L.Check(okU, "pij-assembly", r.label, "uexpt[i][j] = right[i][j]·expt[j]", c.P.Pos(fn.Pos()), "exponential indexed by the column of the right eigenvector matrix", "the scaled eigenvector matrix is not right[i][j]·expt[j] (eigenvalues would be applied to the wrong vectors)")
 	L.Check(okP, "pij-assembly", r.label, "pij[i][j] = Σ_k uexpt[i][k]·left[k][j]", c.P.Pos(fn.Pos()), "inner index shared between the column of uexpt and the row of left", "the product is not uexpt·left with a shared inner index (a transposed factor)")
 	L.Check(okFloor, "pij-assembly", r.label, "floor at DBL_MIN", c.P.Pos(fn.Pos()), "the stored probability merges the computed sum with the DBL_MIN floor", "probabilities are not floored at DBL_MIN")
 	L.Check(okOwn && len(writers) == 0, "pij-assembly", r.label, "writes only the Pij object's own matrices", c.P.Pos(fn.Pos()), "Set receivers are pij.uexpt and pij.pij; these fields are assigned fresh matrices in NewPij only",
 		fmt.Sprintf("SetLength writes a matrix it does not own, or the scratch fields are re-assigned (other writers: %v): the model's cached eigenvectors can be overwritten and later P(t) depend on earlier calls", writers))
-	L.Floor("pij-assembly", 4, "four clauses")
+	L.Floor("pij-assembly", 5, "five clauses")
 }
 
 // ---------------------------------------------------------------------------
@@ -923,6 +949,13 @@ func (c *Ctx) checkStaleFieldReads() {
 		L.Check(len(bad) == 0, "stale-field-read", r.label, "no stale receiver field", c.P.Pos(fn.Pos()), fmt.Sprintf("%d stores to receiver fields, no earlier load of the same field is used after its store", nStores), strings.Join(dedupe(bad), "; "))
 	}
 	L.Floor("stale-field-read", 5, "InitModel methods")
+	L.Rule("assign-before-use", "in an InitModel method no receiver field that the call assigns (from a parameter or a fresh value) is read for computation on a path that reaches that assignment later: the user-supplied value is in force for the whole computation")
+	L.Rule("accumulator-reset", "a receiver field accumulated into (m.f = m.f + x) is assigned afresh earlier in the same call")
+	for _, r := range targets {
+		c.checkWriteAfterRead("assign-before-use", r)
+		c.checkAccumulatorReset("accumulator-reset", r)
+	}
+	L.Floor("assign-before-use", 5, "InitModel methods")
 	_ = n
 }
 
